@@ -257,3 +257,9 @@ fn test_abs() {
     assert_eq!(Number::from_f64(1.0).abs(), Number::from_f64(1.0));
     assert_eq!(Number::from_f64(-1.0).abs(), Number::from_f64(1.0));
 }
+
+// Verification hook (see /verif/MANIFEST.json): Kani proof harnesses for the IEEE-754 facts that the
+// Verus contracts assume about `Number`. Only compiled by the Kani compiler (`cfg(kani)`).
+#[cfg(kani)]
+#[path = "/verif/kani/number_axioms.rs"]
+mod verif_kani;
